@@ -1,3 +1,225 @@
-"""Shell properties (C16, C17, C19, C20)."""
-REGISTRY = {}
-NEEDS_BINS = set()
+"""Shell properties: colour slices (C20), result archives (C16), CLI (C17), converter (C19)."""
+from . import gen, run
+from .props import net_props, worlds, thorough, ctx_spec, chunks
+
+NEEDS_BINS = {"C17", "C19"}
+
+
+def add_shell(chk, kind, fields, tag="", meta=None):
+    cid = chk.new_id(kind[0].lower())
+    chk.cases[cid] = {"kind": kind, "id": cid, "fields": list(fields), "tag": tag, "meta": meta}
+    return cid
+
+
+def judge_shell(chk):
+    """requests whose answer is OK / ERR <what differs>: ERR is a failing input"""
+    for cid, case in list(chk.cases.items()):
+        if case["kind"] not in ("ARCH", "CLI", "CONV"):
+            continue
+        impl = chk.results.get(cid, {}).get("impl")
+        if impl is None:
+            chk.record(cid, ("tie", "no answer from the implementation harness"))
+            continue
+        st = impl.get("status")
+        if st == "SKIP":
+            chk.stats["skipped:" + impl.get("payload", "")[:30]] += 1
+        elif st == "OK":
+            chk.nontrivial.add(hash((case["kind"], tuple(case["fields"]))))
+        elif st == "PANIC":
+            chk.record(cid, ("violation", "panic: " + impl.get("payload", "")))
+        else:
+            chk.record(cid, ("violation", impl.get("payload", "")))
+
+
+# ------------------------------------------------------------------ C20
+def gen_C20(chk):
+    rng = chk.rng
+    ws = worlds(chk, n_random=(25 if thorough(chk) else 8))
+    for nm, net in ws:
+        props = net_props(net)
+        fs = [gen.random_formula(rng, rng.randint(1, 7), props, max_vars=2) for _ in range(10 if thorough(chk) else 5)]
+        fs += [("H", "Bind", "x", None, ("U", "AG", ("U", "EF", gen.T("V", "x")))),
+               ("H", "Bind", "x", None, ("U", "AX", gen.T("V", "x")))]
+        k = max(gen.quant_depth(f) for f in fs)
+        cid = add_shell(chk, "SLICE", [str(k), "A:" + gen.hx(net), ",".join(gen.hx(gen.render(f)) for f in fs),
+                                       str(32 if thorough(chk) else 12)],
+                        tag="slice", meta={"net": net, "netname": nm, "k": k, "fs": fs})
+
+
+def judge_C20(chk):
+    for cid, case in list(chk.cases.items()):
+        if case["kind"] != "SLICE":
+            continue
+        base = chk.results.get(cid, {}).get("impl")
+        if not base:
+            chk.record(cid, ("tie", "no answer"))
+            continue
+        if base.get("status") == "SKIP":
+            chk.stats["skipped:" + base.get("payload", "")[:30]] += 1
+            continue
+        if base.get("status") != "OK":
+            chk.record(cid, ("violation", "parametrised evaluation failed: %s" % base.get("payload")))
+            continue
+        subs = [k for k in chk.results if k.startswith(cid + "#c")]
+        for sid in subs:
+            r = chk.results[sid]
+            colour = sid.split("#c")[1]
+            impl, model, oracle = r.get("impl"), r.get("model"), r.get("oracle")
+            wit = chk.results.get("%s#w%s" % (cid, colour), {}).get("impl")
+            chk.stats["evaluations"] += 1
+            key = (case["meta"]["net"], colour)
+            if impl and "1" in impl.get("payload", "") and "0" in impl.get("payload", ""):
+                chk.nontrivial.add(hash(key))
+            synthetic = dict(case, sub=sid)
+            if oracle and run.norm(oracle)[0] == "OK" and run.norm(oracle) != run.norm(impl):
+                chk.record(cid, ("violation", "colour %s: slice of the parametrised result differs from the result "
+                                              "on the instantiated network (specification)" % colour))
+            elif wit and run.norm(wit) != run.norm(impl):
+                chk.record(cid, ("violation", "colour %s: slice of the parametrised result differs from the result "
+                                              "computed on pick_witness of that colour" % colour))
+            elif model and run.norm(model) != run.norm(impl):
+                chk.record(cid, ("tie", "colour %s: implementation slice differs from the model" % colour))
+
+
+# ------------------------------------------------------------------ C16
+def gen_C16(chk):
+    rng = chk.rng
+    ws = worlds(chk, n_random=(15 if thorough(chk) else 4))
+    for nm, net in ws:
+        props = net_props(net)
+        for j in range(6 if thorough(chk) else 2):
+            labels = rng.sample(["a1", "formula-0", "formula-10", "x_y", "p", "d", "UP", "v.1", "bdd", "model", "é"],
+                                rng.randint(0, 5))
+            ctx = []
+            for l in labels:
+                r = rng.random()
+                if r < 0.2:
+                    spec = "e"
+                elif r < 0.35:
+                    spec = "u"
+                elif r < 0.7:
+                    spec = ctx_spec(rng)
+                else:
+                    f = gen.random_formula(rng, rng.randint(1, 5), props, max_vars=2)
+                    spec = "f" + gen.hx(gen.render(f))
+                ctx.append((l, spec))
+            k = rng.randint(0, 2)
+            formulas = [gen.render(gen.random_formula(rng, rng.randint(1, 4), props, max_vars=1)) for _ in range(rng.randint(0, 4))]
+            usable = [l for l in labels if all(ch.isalnum() or ch == "_" for ch in l)]
+            usage = []
+            for l in usable[:2]:
+                usage.append("EF %%%s%%" % l)
+                if k >= 1:
+                    usage.append("3{x} in %%%s%%: @{x}: AX {x}" % l)
+            add_shell(chk, "ARCH", [str(k), "A:" + gen.hx(net),
+                                    ",".join("%s=%s" % (gen.hx(l), s) for l, s in ctx) or "-",
+                                    ",".join(gen.hx(f) for f in formulas),
+                                    ",".join(gen.hx(f) for f in usage)], tag="archive",
+                      meta={"net": net, "labels": labels})
+
+
+# ------------------------------------------------------------------ C17
+BNET = {
+    "B1": "targets,factors\nA, B | C\nB, C\nC, A\n",
+    "B2": "targets,factors\na, !a\n",
+    "B3": "targets,factors\na, a & b\nb, a | !b\n",
+}
+
+
+def formula_file(rng, formulas):
+    lines = []
+    for f in formulas:
+        while rng.random() < 0.3:
+            lines.append(rng.choice(["", "   ", "# a comment", "\t# indented comment", "#", "  \t  "]))
+        pre = rng.choice(["", " ", "\t", "  "])
+        post = rng.choice(["", " ", "\t", "  "])
+        lines.append(pre + f + post)
+    if rng.random() < 0.3:
+        lines.append("# trailing comment")
+    eol = rng.choice(["\n", "\n", "\r\n"])
+    text = eol.join(lines)
+    if rng.random() < 0.7:
+        text += eol
+    return text
+
+
+def gen_C17(chk):
+    rng = chk.rng
+    ws = worlds(chk, quick_names=["N02", "N05", "N06", "N09", "N12", "N16", "N21"], n_random=(6 if thorough(chk) else 2))
+    opts = ["no-print", "summary", "with-progress", "exhaustive"]
+    for nm, net in ws:
+        props = net_props(net)
+        for j in range(8 if thorough(chk) else 3):
+            fs = [gen.render(gen.random_formula(rng, rng.randint(1, 6), props, max_vars=2)) if rng.random() < 0.6
+                  else gen.render_variant(gen.random_formula(rng, rng.randint(1, 5), props, max_vars=2), rng).replace("\n", " ")
+                  for _ in range(rng.randint(1, 4))]
+            if rng.random() < 0.3 and len(fs) > 1:
+                fs.append(fs[0])
+            text = formula_file(rng, fs)
+            add_shell(chk, "CLI", ["aeon", gen.hx(net), gen.hx(text), opts[j % 4], "-"], tag="cli-aeon",
+                      meta={"net": net, "formulas": fs})
+        # with a context archive
+        for j in range(4 if thorough(chk) else 2):
+            fs = ["EF %p%", "3{x} in %d%: @{x}: AX {x}", "%p% & (!{x} in %d%: EX {x})"][: rng.randint(1, 3)]
+            ctx = "%s=%s,%s=%s" % (gen.hx("p"), ctx_spec(rng), gen.hx("d"), ctx_spec(rng))
+            add_shell(chk, "CLI", ["aeon", gen.hx(net), gen.hx(formula_file(rng, fs)), opts[1 + j % 3], ctx],
+                      tag="cli-ctx", meta={"net": net})
+    for nm, text in BNET.items():
+        for j in range(4 if thorough(chk) else 2):
+            props = ["A", "B", "C"] if nm == "B1" else (["a"] if nm == "B2" else ["a", "b"])
+            fs = [gen.render(gen.random_formula(rng, rng.randint(1, 5), props, max_vars=2)) for _ in range(rng.randint(1, 3))]
+            add_shell(chk, "CLI", ["bnet", gen.hx(text), gen.hx(formula_file(rng, fs)), opts[(j + 1) % 4], "-"], tag="cli-bnet")
+    # invalid inputs must be reported as messages
+    net = gen.CURATED["N06"]
+    for bad in ["a &", "{x}", "!{x}: !{x}: {x}", "nope", "%p%", "3{x} in %d%: {x}"]:
+        add_shell(chk, "CLI", ["aeon", gen.hx(net), gen.hx(bad + "\n"), "summary", "-"], tag="cli-invalid")
+    add_shell(chk, "CLI", ["aeon", gen.hx("this is not a model ->"), gen.hx("a\n"), "summary", "-"], tag="cli-badmodel")
+    add_shell(chk, "CLI", ["aeon", gen.hx(net), gen.hx("EF %q%\n"), "summary", gen.hx("p") + "=u"], tag="cli-missing-ctx")
+
+
+# ------------------------------------------------------------------ C19
+CONV_NETS = [
+    "a -> b\nb -| a\n",
+    "a -?? a\n",
+    "b -> a\nc -| a\na -> b\na -> c\n",
+    "b -?? a\na -> b\n$a: f(b)\n$b: a\n",
+    "b -?? a\na -?? b\n$a: f(b)\n$b: f(a)\n",
+    "b -?? a\na -?? b\n$a: f(!b) | g\n$b: a & g\n",
+    "b -?? a\nc -?? a\na -> b\na -?? c\nb -?? c\n$a: (b & !c) | f(b, c)\n$b: a\n$c: !a | b\n",
+    "b -> a\n$a: b\n",
+    "b -> a\nc -?? a\nb -> b\nc -> c\n$a: h(b, c)\n$b: b\n$c: c\n",
+    "a -> a\nb -> a\na -> b\nb -> b\n$a: a | b\n$b: a & b\n",
+    "a -?? b\nb -?? a\nc -?? a\n$a: f(b, c) & g(c)\n",
+    "a -?? b\nb -?? a\n$a: f(b) ^ f(!b)\n",
+    "a -> b\nb -> c\nc -> a\nc -| b\n",
+    "a_1 -> a\na -> a_1\n",
+    "b -?? a\n$a: h(f(b))\n",
+    "b -?? a\nc -?? a\n$a: f(b & c, !b)\n",
+    "a_0 -> a\na -?? a\na -> a_0\n$a_0: a\n",
+]
+
+
+def gen_C19(chk):
+    rng = chk.rng
+    nets = list(CONV_NETS)
+    for i in range(60 if thorough(chk) else 20):
+        nets.append(gen.random_network(rng, max_n=3, max_bits=10))
+    for net in nets:
+        add_shell(chk, "CONV", [gen.hx(net)], tag="conv", meta={"net": net})
+
+
+def runner(gens, judge):
+    def run_(chk):
+        for g in gens:
+            g(chk)
+        chk.execute()
+        judge(chk)
+    return run_
+
+
+REGISTRY = {
+    "C16": runner([gen_C16], judge_shell),
+    "C17": runner([gen_C17], judge_shell),
+    "C19": runner([gen_C19], judge_shell),
+    "C20": runner([gen_C20], judge_C20),
+}
